@@ -103,6 +103,62 @@ func c16Lattice() []C16AC {
 	return l
 }
 
+// Star-shaped resources. The statement's pattern language is "exact, or prefix with a
+// trailing *": a '*' that is not the last character of a resource is an ordinary character
+// (c16Match treats it so). These entries must grant / deny nothing but the literal path
+// (or, with a trailing star as well, the literal prefix that contains the inner star).
+var c16StarResources = []string{"/datasets/*/changes", "/datasets/a*/entities", "/*/clients", "/datasets/a*b*", "*/entities"}
+
+func c16StarLattice() []C16AC {
+	var l []C16AC
+	for _, r := range c16StarResources {
+		for _, act := range []string{"read", "write"} {
+			for _, d := range []bool{false, true} {
+				l = append(l, C16AC{Resource: r, Action: act, Deny: d})
+			}
+		}
+	}
+	return l
+}
+
+// c16StarLists: every star-shaped entry alone; from size 2 on paired (both orders) with
+// companions: two fixed ones at max 2, the whole lattice and the other star entries at max 3.
+func c16StarLists(max int) [][]C16AC {
+	var res [][]C16AC
+	star := c16StarLattice()
+	if max >= 1 {
+		for _, a := range star {
+			res = append(res, []C16AC{a})
+		}
+	}
+	if max >= 2 {
+		comp := []C16AC{{Resource: "/datasets/a*", Action: "read", Deny: true}, {Resource: "/jobs*", Action: "read"}}
+		if max >= 3 {
+			comp = append(c16Lattice(), star...)
+		}
+		for _, a := range star {
+			for _, b := range comp {
+				if a != b {
+					res = append(res, []C16AC{a, b}, []C16AC{b, a})
+				}
+			}
+		}
+	}
+	return res
+}
+
+// c16StarPrefixCovers: an allow entry whose resource has a '*' before its last character
+// and whose text before the first '*' is a prefix of the path (what a "cut at the first
+// star" matcher would grant).
+func c16StarPrefixCovers(acl []C16AC, path string) bool {
+	for _, a := range acl {
+		if i := strings.Index(a.Resource, "*"); !a.Deny && i >= 0 && i < len(a.Resource)-1 && strings.HasPrefix(path, a.Resource[:i]) {
+			return true
+		}
+	}
+	return false
+}
+
 // c16Lists enumerates all ACL lists (ordered, without repetition) of size <= max.
 func c16Lists(max int) [][]C16AC {
 	lat := c16Lattice()
